@@ -237,10 +237,14 @@ func (g *G) OneOp(doc bson.D, depth int) bson.E {
 		}
 		return bson.E{Key: "$type", Value: bson.A{g.Pick("number", "string", "array"), g.Pick("null", "int", "object", int32(8))}}
 	case 14, 15:
-		n := g.N(3)
+		n := g.N(5)
 		a := make(bson.A, 0, n)
 		for i := 0; i < n; i++ {
-			a = append(a, g.Operand(doc, g.P(80)))
+			if i > 0 && g.P(35) {
+				a = append(a, a[g.N(i)]) // a value listed twice is one requirement
+			} else {
+				a = append(a, g.Operand(doc, g.P(80)))
+			}
 		}
 		return bson.E{Key: "$all", Value: a}
 	case 16, 17:
